@@ -44,6 +44,8 @@ func (s scenario) String() string {
 
 type outcome struct {
 	stalled     bool
+	starved     bool
+	stacks      string
 	stallAt     int
 	maxLatency  time.Duration
 	handed      int
@@ -141,6 +143,23 @@ func run(sc scenario) outcome {
 			atomic.StoreInt64(&progress, int64(i+1))
 		}
 	}()
+	// canary: a goroutine that only sleeps 1 ms and counts.  If it does not advance either, the machine
+	// (not the relay) is starving the process, and the stall says nothing about the property.
+	var canary int64
+	stopCanary := make(chan struct{})
+	go func() {
+		for {
+			select {
+			case <-stopCanary:
+				return
+			default:
+			}
+			time.Sleep(time.Millisecond)
+			atomic.AddInt64(&canary, 1)
+		}
+	}()
+	defer close(stopCanary)
+	lastCanary := int64(0)
 	last, lastChange := int64(0), time.Now()
 	finished := false
 	for !finished {
@@ -149,10 +168,18 @@ func run(sc scenario) outcome {
 			finished = true
 		case <-time.After(50 * time.Millisecond):
 			p := atomic.LoadInt64(&progress)
+			cn := atomic.LoadInt64(&canary)
 			if p != last {
-				last, lastChange = p, time.Now()
+				last, lastChange, lastCanary = p, time.Now(), cn
 			} else if time.Since(lastChange) > stallBound {
-				out.stalled, out.stallAt = true, int(p)
+				// the canary should have ticked ~2000 times in 2 s; far fewer means the process is not getting CPU
+				if cn-lastCanary < 400 {
+					out.starved = true
+				} else {
+					out.stalled, out.stallAt = true, int(p)
+					buf := make([]byte, 1<<18)
+					out.stacks = relayStacks(string(buf[:runtime.Stack(buf, true)]))
+				}
 				finished = true
 			}
 		}
@@ -162,7 +189,7 @@ func run(sc scenario) outcome {
 	if out.maxLatency > stallBound {
 		out.stalled = true
 	}
-	if out.stalled {
+	if out.stalled || out.starved {
 		if e != nil {
 			e.SetMode(ep.Healthy)
 		}
@@ -277,11 +304,19 @@ func TestPropBadEndpoint(t *testing.T) {
 			sc.volume = 4 << 20
 		}
 		o := run(sc)
+		if o.starved {
+			rec.Class("inconclusive:machine-starved", 1)
+			t.Skip("the process was not getting CPU (canary goroutine starved): the stall says nothing about the relay")
+		}
 		if o.stalled {
 			// a wall-clock bound is a fragile oracle: re-run the scenario once, report only a repeat
 			o2 := run(sc)
+			if o2.starved {
+				rec.Class("inconclusive:machine-starved", 1)
+				t.Skip("machine starved during the confirmation run")
+			}
 			if o2.stalled {
-				t.Fatalf("ingestion stalled: handing a metric to the table did not return within %s (twice) with endpoint %s; first run stalled after %d lines (max latency %s), second after %d", stallBound, sc, o.stallAt, o.maxLatency, o2.stallAt)
+				t.Fatalf("ingestion stalled: handing a metric to the table did not return within %s (twice) with endpoint %s; first run stalled after %d lines (max latency %s), second after %d\nrelay goroutines at the second stall:\n%s", stallBound, sc, o.stallAt, o.maxLatency, o2.stallAt, o2.stacks)
 			}
 			o = o2
 		}
@@ -295,4 +330,19 @@ func TestPropBadEndpoint(t *testing.T) {
 		rec.Num("lines_handed", int64(o.handed))
 		rec.Num("max_latency_us_sum", int64(o.maxLatency/time.Microsecond))
 	})
+}
+
+// relayStacks keeps the goroutines of relay code from a full dump.
+func relayStacks(dump string) string {
+	var keep []string
+	for _, g := range strings.Split(dump, "\n\n") {
+		if strings.Contains(g, "carbon-relay-ng/destination") || strings.Contains(g, "carbon-relay-ng/route") || strings.Contains(g, "carbon-relay-ng/table") {
+			lines := strings.Split(g, "\n")
+			if len(lines) > 9 {
+				lines = lines[:9]
+			}
+			keep = append(keep, strings.Join(lines, "\n"))
+		}
+	}
+	return strings.Join(keep, "\n\n")
 }
